@@ -63,6 +63,15 @@ def run(ck: Checker, prog: Program, tier: str):
         ck.guard(c08._r4, ck, prog)
     with ck.borrow(c05, "C06.R6+"):
         ck.guard(S.check_estimators, ck, prog, "C05.R3")
+    # "for every ... search range": the range is turned into index bounds as C08 states; and the statistics the criterion reads
+    # are recomputed from the masks of the moment (accessors keep no cache on the object - rule of C20/C05)
+    from . import c20
+    with ck.borrow(c08, "C06.R6+"):
+        ck.guard(c08._r1, ck, prog)
+    with ck.borrow(c20, "C06.R6+"):
+        ck.guard(c20._read_only, ck, prog)
+    with ck.borrow(c05, "C06.R4+"):
+        ck.guard(S.check_mask_properties, ck, prog, "C05.R1")
 
 
 def _iteration_loop(inner) -> ast.For:
